@@ -21,6 +21,7 @@ func checkC01(p *Program, r *Report) {
 	checkVLenWidth(p, r, "C01.vlen-width")
 	checkCapacity(p, r, "C01.capacity")
 	checkLeafDecoder(p, r, "C01.leaf-decoder")
+	checkBigZone(p, r, "C01.bigzone")
 }
 
 // ---------------------------------------------------------------------------
@@ -596,6 +597,28 @@ func checkCapacity(p *Program, r *Report, rule string) {
 		recv := f.Params[0]
 		e := newEval(p)
 		e.env[recv] = S("RECV")
+		// a builder helper that is handed a count by the builder: bind the parameter to the caller's
+		// term when every call site (on the same receiver) passes the same one
+		for pi, prm := range f.Params[1:] {
+			var seen []string
+			var bound *term
+			for _, g := range p.FuncsOf(triePath) {
+				if g.Synthetic != "" || g.Signature.Recv() == nil || len(g.Params) == 0 || !types.Identical(g.Params[0].Type(), recv.Type()) {
+					continue
+				}
+				ge := newEval(p)
+				ge.env[g.Params[0]] = S("RECV")
+				for _, c2 := range callsIn(g) {
+					if calleeOf(c2) == f && pi+1 < len(c2.Common().Args) && c2.Common().Args[0] == ssa.Value(g.Params[0]) {
+						bound = ge.eval(c2.Common().Args[pi+1])
+						seen = append(seen, bound.String())
+					}
+				}
+			}
+			if len(dedupStrings(seen)) == 1 && !strings.Contains(seen[0], "phi:") && !strings.Contains(seen[0], "?") {
+				e.env[prm] = bound
+			}
+		}
 		for _, c := range callsIn(f) {
 			call, ok := c.(*ssa.Call)
 			if !ok {
